@@ -903,8 +903,7 @@ func classifyPanic(p interface{}) interface{} {
 	case nil, targetPanic, abortPath, prunePath, stopPath, exitPanic:
 		return p
 	case *runtime.TypeAssertionError:
-		buf := make([]byte, 1<<13)
-		return abortPath{"engine: " + x.Error() + "\n" + string(buf[:runtime.Stack(buf, false)])}
+		return abortPath{"engine: " + x.Error() + "\n" + originStack()}
 	case runtime.Error:
 		return p
 	case string:
@@ -913,8 +912,7 @@ func classifyPanic(p interface{}) interface{} {
 				return p
 			}
 		}
-		buf := make([]byte, 1<<13)
-		return abortPath{"engine: " + x + "\n" + string(buf[:runtime.Stack(buf, false)])}
+		return abortPath{"engine: " + x + "\n" + originStack()}
 	default:
 		return abortPath{fmt.Sprintf("engine: unexpected panic %T %v", p, p)}
 	}
@@ -926,3 +924,33 @@ func classifyPanic(p interface{}) interface{} {
 var overrides = map[string]*ssa.Function{}
 
 func RegisterOverride(target string, h *ssa.Function) { overrides[target] = h }
+
+// originStack returns the frames below the panic() frame, i.e. where the
+// failure originated, as a compact single line.
+func originStack() string {
+	buf := make([]byte, 1<<16)
+	st := string(buf[:runtime.Stack(buf, false)])
+	if i := strings.Index(st, "panic("); i >= 0 {
+		st = st[i:]
+	}
+	lines := strings.Split(st, "\n")
+	var out []string
+	for i := 2; i < len(lines) && len(out) < 8; i += 2 {
+		fn := lines[i]
+		if j := strings.Index(fn, "("); j > 0 {
+			fn = fn[:j]
+		}
+		loc := ""
+		if i+1 < len(lines) {
+			loc = strings.TrimSpace(lines[i+1])
+			if j := strings.Index(loc, " +0x"); j > 0 {
+				loc = loc[:j]
+			}
+			if j := strings.LastIndex(loc, "/"); j >= 0 {
+				loc = loc[j+1:]
+			}
+		}
+		out = append(out, fn+"@"+loc)
+	}
+	return strings.Join(out, " < ")
+}
